@@ -761,7 +761,7 @@ fn main() {
         return;
     }
     corpus(&mut cx);
-    let files = args.budget(260, 6000);
+    let files = args.budget(260, 2000);
     for _ in 0..files {
         let f = gen_file(&mut r);
         let n = 6 + r.usize(20);
